@@ -135,6 +135,14 @@ Section Generic.
       intros Hl; (destruct (Z.eq_dec abegin apend) as [Q|Q]; [rewrite Q in *; lia | lia]).
   Qed.
 
+  Lemma geom2 : apbegin <= aend.
+  Proof.
+    facts. destruct geom as (G1 & G2 & G3 & _).
+    rewrite He3, Hb3 in *.
+    destruct (Z.eqb_spec erem 0) as [E|E]; destruct (Z.eqb_spec brem 0) as [E'|E']; try lia;
+      (destruct (Z.eq_dec abegin apend) as [Q|Q]; [rewrite Q in *; lia | lia]).
+  Qed.
+
   Lemma init_abegin : r_abegin r = abegin.
   Proof.
     unfold init. rewrite wrap_e.
@@ -262,15 +270,15 @@ Section Generic.
     cut (exists l, all_parts_from L r (Z.to_nat (r_aend r - abegin)) (r_first r) = Some l /\
                    l <> [] /\ tiles B L (B abegin + brem) eoff abegin l);
       [rewrite Hb1; intros X; exact X|].
-    destruct (Z.eq_dec (abegin + 1) aend) as [S|S].
+    destruct (Z.eq_dec (abegin + 1) aend) as [HS|HS].
     - (* one block *)
-      destruct init_small as (F & _); [rewrite wrap_small by lia; exact S|].
+      destruct init_small as (F & _); [rewrite wrap_small by lia; exact HS|].
       rewrite F.
       apply (tiles_loop r eoff abegin); try assumption; try lia; try (rewrite init_aend; lia).
       rewrite init_aend. destruct (Z.eqb_spec (abegin + 1) aend) as [_|N]; [|contradiction].
-      rewrite <- S in G4. lia.
+      rewrite <- HS in G4. lia.
     - (* several blocks *)
-      destruct init_big as (_ & _ & F & P); [rewrite wrap_small by lia; exact S|].
+      destruct init_big as (_ & _ & F & P); [rewrite wrap_small by lia; exact HS|].
       rewrite F.
       apply (tiles_loop r eoff abegin); try assumption; try lia; try (rewrite init_aend; lia).
       + rewrite init_aend, P. intros i' Hi'. cbv zeta.
@@ -289,4 +297,224 @@ Section Generic.
           subst i'. lia.
       + rewrite init_aend. destruct (Z.eqb_spec (abegin + 1) aend) as [N|_]; [contradiction|]. lia.
   Qed.
+  (* ---------- aligned_parts ---------- *)
+  Lemma small_nonempty_order : sub_nonempty (r_small r) = true -> apend < apbegin.
+  Proof.
+    facts. intros Hs. destruct geom as (G1 & G2 & _).
+    destruct (Z.eq_dec (wrap (abegin + 1)) aend) as [HS|HS].
+    - destruct (init_small HS) as (_ & Sm & _). rewrite Sm in Hs.
+      rewrite Hb3, He3 in *.
+      destruct (Z.eqb_spec brem 0) as [E|E]; destruct (Z.eqb_spec erem 0) as [E'|E'];
+        cbn [negb andb] in Hs; try discriminate Hs.
+      destruct (Z.eq_dec (abegin + 1) W64) as [Q|Q].
+      + rewrite Q in HS. unfold wrap in HS. rewrite Z.mod_same in HS by lia. lia.
+      + rewrite wrap_small in HS by lia. lia.
+    - destruct (init_big HS) as (Sm & _). rewrite Sm in Hs. discriminate Hs.
+  Qed.
+
+  Lemma aligned_ok : forall fuel, (Z.to_nat (apend - apbegin) <= fuel)%nat ->
+    aligned_parts L r fuel = Some (whole_blocks L apbegin (Z.to_nat (apend - apbegin))).
+  Proof.
+    facts. intros fuel Hf. destruct geom as (G1 & G2 & G3 & _). pose proof geom2 as G7.
+    unfold aligned_parts, aligned_stop. rewrite init_apbegin, init_apend.
+    apply aligned_from_ok; try lia.
+    - destruct (sub_nonempty (r_small r) || (apend <? apbegin)); lia.
+    - pose proof small_nonempty_order as SO.
+      destruct (sub_nonempty (r_small r)); cbn [orb].
+      + specialize (SO eq_refl). lia.
+      + destruct (Z.ltb_spec apend apbegin); lia.
+  Qed.
+
+  (* ---------- the all_parts loop: exact shape ---------- *)
+  Lemma all_parts_from_end (rr : rs) : forall n cur,
+    s_i cur = r_aend rr -> all_parts_from L rr n cur = Some [].
+  Proof.
+    intros n cur E. destruct n; cbn [all_parts_from]; rewrite E, Z.eqb_refl; reflexivity.
+  Qed.
+
+  Local Notation cur_at i :=
+    (mkSub i 0 (if sub_nonempty (r_postface r) && (s_i (r_postface r) =? i)
+                then s_len (r_postface r) else L i)).
+
+  Lemma exact_loop : wrap (abegin + 1) <> aend ->
+    forall n i, Z.of_nat n = aend - i -> abegin < i < aend ->
+    all_parts_from L r n (cur_at i) =
+      Some (whole_blocks L i (Z.to_nat (apend - i)) ++ opt_part (r_postface r)).
+  Proof.
+    facts. intros Hbig. destruct (init_big Hbig) as (_ & _ & _ & P).
+    destruct geom as (G1 & G2 & G3 & _).
+    induction n as [|n IH]; intros i Hn Hi; [lia|].
+    cbn [all_parts_from s_i s_len]. rewrite init_aend.
+    destruct (Z.eqb_spec i aend) as [E|E]; [lia|].
+    rewrite wrap_small by lia.
+    destruct (Z.eqb_spec (i + 1) aend) as [E1|E1].
+    - rewrite all_parts_from_end by (rewrite init_aend; exact E1).
+      f_equal. rewrite P. rewrite He3 in *.
+      destruct (Z.eqb_spec erem 0) as [Q|Q].
+      + replace (Z.to_nat (apend - i)) with 1%nat by lia.
+        unfold opt_part, sub_nonempty. cbn [sub0 s_len s_i whole_blocks app].
+        rewrite Z.ltb_irrefl. cbn [andb]. reflexivity.
+      + replace (Z.to_nat (apend - i)) with 0%nat by lia.
+        unfold opt_part, sub_nonempty. cbn [s_len s_i whole_blocks app].
+        replace (0 <? erem) with true by (symmetry; apply Z.ltb_lt; lia).
+        replace (apend =? i) with true by (symmetry; apply Z.eqb_eq; lia).
+        cbn [andb]. f_equal. f_equal. lia.
+    - rewrite IH by lia. f_equal.
+      replace (Z.to_nat (apend - i)) with (S (Z.to_nat (apend - (i + 1)))) by lia.
+      cbn [whole_blocks app]. f_equal.
+      rewrite P. destruct (Z.eqb_spec erem 0) as [Q|Q].
+      + unfold sub_nonempty. cbn [sub0 s_len]. rewrite Z.ltb_irrefl. reflexivity.
+      + cbn [s_i]. replace (apend =? i) with false by (symmetry; apply Z.eqb_neq; lia).
+        rewrite andb_false_r. reflexivity.
+  Qed.
+
+  (* THEOREM classification_consistent (generic) *)
+  Theorem classification_consistent_generic : 0 < length ->
+    let fuel := Z.to_nat (r_aend r - r_abegin r) in
+    let al := whole_blocks L (r_apbegin r) (Z.to_nat (r_apend r - r_apbegin r)) in
+    aligned_parts L r fuel = Some al /\ Forall (whole_block L) al /\
+    (if sub_nonempty (r_small r)
+     then all_parts L r fuel = Some [r_small r] /\ al = []
+     else all_parts L r fuel = Some (opt_part (r_preface r) ++ al ++ opt_part (r_postface r))).
+  Proof.
+    facts. intros Hpos_len. cbv zeta.
+    destruct geom as (G1 & G2 & G3 & G4 & G5 & G6). specialize (G6 Hpos_len).
+    rewrite init_abegin, init_aend, init_apbegin, init_apend.
+    split; [apply aligned_ok; lia|]. split; [apply whole_blocks_whole|].
+    unfold all_parts.
+    pose proof (Hpos abegin Hbi) as Hpa. pose proof (Hstep abegin Hbi) as Hsa.
+    destruct (Z.eq_dec (abegin + 1) aend) as [HS|HS].
+    - (* one block *)
+      assert (HS' : wrap (abegin + 1) = aend) by (rewrite wrap_small by lia; exact HS).
+      destruct (init_small HS') as (F & Sm & Pr & Po). rewrite F, Sm, Pr, Po.
+      replace (Z.to_nat (aend - abegin)) with 1%nat by lia.
+      cbn [all_parts_from s_i s_len]. rewrite init_aend.
+      destruct (Z.eqb_spec abegin aend) as [Q|_]; [lia|].
+      rewrite HS'. rewrite Z.eqb_refl.
+      assert (NE : sub_nonempty (mkSub abegin brem length) = true)
+        by (unfold sub_nonempty; cbn [s_len]; apply Z.ltb_lt; lia).
+      rewrite Hb3, He3 in *.
+      destruct (Z.eqb_spec brem 0) as [E|E]; destruct (Z.eqb_spec erem 0) as [E'|E'];
+        cbn [negb andb]; unfold opt_part; try rewrite NE;
+        change (sub_nonempty sub0) with false; cbv iota.
+      + (* exactly one aligned block *)
+        replace (Z.to_nat (apend - abegin)) with 1%nat by lia.
+        cbn [whole_blocks app]. do 2 f_equal. rewrite <- HS in He1. f_equal; lia.
+      + replace (Z.to_nat (apend - abegin)) with 0%nat by lia. reflexivity.
+      + replace (Z.to_nat (apend - (abegin + 1))) with 0%nat by lia. reflexivity.
+      + replace (Z.to_nat (apend - (abegin + 1))) with 0%nat by lia. split; reflexivity.
+    - (* several blocks *)
+      assert (HS' : wrap (abegin + 1) <> aend) by (rewrite wrap_small by lia; exact HS).
+      destruct (init_big HS') as (Sm & Pr & F & Po). rewrite F, Sm, Pr.
+      change (sub_nonempty sub0) with false. cbv iota.
+      replace (Z.to_nat (aend - abegin)) with (S (Z.to_nat (aend - (abegin + 1)))) by lia.
+      cbn [all_parts_from s_i s_len]. rewrite init_aend.
+      destruct (Z.eqb_spec abegin aend) as [Q|_]; [lia|].
+      rewrite wrap_small by lia.
+      destruct (Z.eqb_spec (abegin + 1) aend) as [Q|_]; [contradiction|].
+      rewrite (exact_loop HS') by lia. f_equal.
+      rewrite Hb3.
+      destruct (Z.eqb_spec brem 0) as [E|E]; unfold opt_part at 2.
+      + change (sub_nonempty sub0) with false. cbv iota. cbn [app].
+        replace (Z.to_nat (apend - abegin)) with (S (Z.to_nat (apend - (abegin + 1)))) by lia.
+        cbn [whole_blocks app]. f_equal. f_equal; lia.
+      + unfold sub_nonempty at 1. cbn [s_len].
+        replace (0 <? L abegin - brem) with true by (symmetry; apply Z.ltb_lt; lia).
+        reflexivity.
+  Qed.
+
+  (* THEOREM aligned_enclose (generic) *)
+  Theorem aligned_enclose_generic :
+    B (r_abegin r) <= offset < B (r_abegin r) + L (r_abegin r) /\
+    eoff <= B (r_aend r) /\ B (r_aend r) - L (r_apend r) < eoff /\
+    (0 < length -> B (r_aend r) - L (r_aend r - 1) < eoff).
+  Proof.
+    facts. destruct geom as (G1 & G2 & G3 & G4 & G5 & G6).
+    rewrite init_abegin, init_aend, init_apend.
+    repeat split; try lia.
+    intros Hl. specialize (G6 Hl). rewrite He3 in *.
+    destruct (Z.eqb_spec erem 0) as [E|E].
+    - pose proof (Hpos (apend - 1)). lia.
+    - replace (apend + 1 - 1) with apend by lia. lia.
+  Qed.
+
+  (* THEOREM empty_range (generic) *)
+  Theorem empty_range_generic : length = 0 ->
+    all_parts L r (Z.to_nat (r_aend r - r_abegin r)) =
+      Some (if d_rem (divide offset) =? 0 then [] else [mkSub (r_abegin r) (d_rem (divide offset)) 0]) /\
+    (forall fuel, aligned_parts L r fuel = Some []) /\
+    sub_nonempty (r_small r) = false /\ sub_nonempty (r_preface r) = false /\
+    sub_nonempty (r_postface r) = false.
+  Proof.
+    facts. intros L0.
+    assert (Heq : divide (offset + length) = divide offset) by (rewrite L0, Z.add_0_r; reflexivity).
+    pose proof geom as G. pose proof aligned_ok as AO.
+    pose proof init_small as IS. pose proof init_big as IB. cbv zeta in IS.
+    pose proof init_aend as IAE.
+    rewrite init_abegin. unfold all_parts.
+    rewrite Heq in He1, He2, He3, Hei, Hnw, G, AO, IS, IB, IAE. try rewrite Heq.
+    destruct G as (_ & _ & G3 & _).
+    rewrite Hb3 in *.
+    destruct (Z.eqb_spec brem 0) as [E|E].
+    - (* aligned empty range: no part at all *)
+      assert (HS : wrap (abegin + 1) <> abegin) by (apply wrap_succ_neq; lia).
+      destruct (IB HS) as (Sm & Pr & F & Po). rewrite Sm, Pr, Po, F. rewrite IAE.
+      replace (Z.to_nat (abegin - abegin)) with 0%nat by lia.
+      cbn [all_parts_from s_i]. rewrite IAE, Z.eqb_refl.
+      repeat split; try reflexivity.
+      intros fuel. rewrite AO by lia.
+      replace (Z.to_nat (abegin - abegin)) with 0%nat by lia. reflexivity.
+    - (* un-aligned empty range: one part of length 0 (F19 lived here) *)
+      assert (HS : wrap (abegin + 1) = abegin + 1) by (apply wrap_small; lia).
+      destruct (IS HS) as (F & Sm & Pr & Po). rewrite Sm, Pr, Po, F.
+      rewrite IAE. replace (Z.to_nat (abegin + 1 - abegin)) with 1%nat by lia.
+      cbn [all_parts_from s_i s_len negb andb]. rewrite IAE.
+      destruct (Z.eqb_spec abegin (abegin + 1)) as [Q|_]; [lia|].
+      rewrite HS, Z.eqb_refl.
+      unfold sub_nonempty. cbn [s_len sub0].
+      repeat split; try reflexivity; try (rewrite L0; reflexivity).
+      intros fuel. rewrite AO by lia.
+      replace (Z.to_nat (abegin - (abegin + 1))) with 0%nat by lia. reflexivity.
+  Qed.
+  (* ---------- the same, for any sufficient fuel (statement forms of C15_Spec) ---------- *)
+  Lemma all_parts_enough : forall l fuel,
+    all_parts L r (Z.to_nat (r_aend r - r_abegin r)) = Some l ->
+    (Z.to_nat (r_aend r - r_abegin r) <= fuel)%nat -> all_parts L r fuel = Some l.
+  Proof.
+    intros l fuel Hrun Hf. unfold all_parts in *.
+    replace fuel with (Z.to_nat (r_aend r - r_abegin r) + (fuel - Z.to_nat (r_aend r - r_abegin r)))%nat by lia.
+    apply all_parts_from_more. exact Hrun.
+  Qed.
+
+  Theorem parts_tile_generic_stmt : 0 < length -> parts_tile_stmt B L divide offset length.
+  Proof.
+    intros Hl. unfold parts_tile_stmt. cbv zeta. intros fuel Hf.
+    destruct (parts_tile_generic Hl) as (l & Hrun & Hne & Ht).
+    exists l. split; [apply all_parts_enough; assumption|]. split; assumption.
+  Qed.
+
+  Theorem classification_generic_stmt : 0 < length -> classification_stmt L divide offset length.
+  Proof.
+    facts. intros Hl. unfold classification_stmt. cbv zeta. intros fuel Hf.
+    destruct (classification_consistent_generic Hl) as (_ & Hw & Hc). cbv zeta in Hw, Hc.
+    split; [|split; [exact Hw|]].
+    - rewrite init_apbegin, init_apend. apply aligned_ok.
+      rewrite init_abegin, init_aend in Hf.
+      destruct geom as (G1 & G2 & G3 & _). lia.
+    - destruct (sub_nonempty (r_small r)).
+      + destruct Hc as [Hc1 Hc2]. split; [apply all_parts_enough; assumption|exact Hc2].
+      + apply all_parts_enough; assumption.
+  Qed.
+
+  Theorem enclose_generic_stmt : enclose_stmt B L divide offset length.
+  Proof. exact aligned_enclose_generic. Qed.
 End Generic.
+
+Theorem empty_generic_stmt B L divide lo hi offset :
+  split_hyps B L divide lo hi offset 0 -> empty_stmt L divide offset.
+Proof.
+  intros H. unfold empty_stmt. cbv zeta.
+  destruct (empty_range_generic B L divide lo hi offset 0 H eq_refl) as (Ha & Hal & Hs).
+  split; [|split; assumption].
+  intros fuel Hf. apply (all_parts_enough L divide offset 0); assumption.
+Qed.
